@@ -956,9 +956,9 @@ where
                 Ok(node_id)
             }
             _ => {
-                // For other storage types, return 0 for now
-                self.stats.num_keys += 1;
-                Ok(0)
+                // Other storage types: the state reached by the key is its node id; Trie::insert
+                // stores the key and counts it only when it is new
+                <Self as Trie>::insert(self, key)
             }
         }
     }
@@ -974,8 +974,8 @@ where
                 Self::find_key_position(label_data, key)
             }
             _ => {
-                // For other storage types, return None for now
-                None
+                // Other storage types: walk the automaton view (Trie::lookup)
+                <Self as Trie>::lookup(self, key)
             }
         }
     }
